@@ -81,7 +81,7 @@ func typeStr(t types.Type) string {
 // reflectPanicky lists reflect functions/methods with a panicking precondition.
 var reflectPanicky = map[string]bool{
 	"IsNil": true, "Len": true, "Index": true, "Slice": true, "Elem": true, "Set": true, "Call": true, "Field": true,
-	"FieldByName": true, "MapKeys": true, "MapIndex": true, "NumField": true, "Method": true, "Interface": true,
+	"FieldByName": true, "MapKeys": true, "MapIndex": true, "NumField": true, "Method": true, "Interface": false,
 	"Int": true, "Float": true, "Uint": true, "Bool": true, "SetInt": true, "SetString": true, "NumMethod": false,
 	"MakeSlice": true, "SliceOf": true, "Append": true, "AppendSlice": true, "Zero": true, "New": true, "MakeMap": true,
 	"In": true, "Out": true, "NumIn": true, "NumOut": true, "Key": true, "MapRange": true, "Cap": true, "String": false, "MethodByName": false,
